@@ -16,7 +16,9 @@ RULE = (
     "hyper-parameters a,b over three decades, coefficient vectors from the prior, from the null space and far "
     "in the tails, DistRegBuilder models with a response and hand-built smooth groups; "
     "finite_discrete_gibbs_kernel: 2-6 outcomes, prior probabilities incl. near 0, FiniteDiscrete and Bernoulli "
-    "priors, Normal and Poisson downstream likelihoods depending on the discrete variable. 20 000 draws per "
+    "priors, impossible outcomes (probability exactly 0), Normal and Poisson downstream likelihoods and latent "
+    "(non-observed) variables depending on the discrete variable; kernel state handed in differs from the model state at "
+    "kernel construction. 20 000 draws per "
     "case through kernel.transition under vmap; two-stage rule (|z|>4.5, confirmed at 4x N). non-trivial = "
     "rank-deficient penalty or beta'K beta > 1; discrete conditional differing from the prior by > 0.1 in total "
     "variation; distinct by parameter hash"
